@@ -929,10 +929,82 @@ func (c *csCtx) messages(f *ast.File) ([]csMsg, error) {
 
 // internOrder lists the addString calls of preEncode in source order: the symbolic path of the
 // interned expression under the symbolic paths of the enclosing loops and conditions.
-func (c *csCtx) internOrder(fd *ast.FuncDecl) ([]csSite, error) {
+//
+// The mandatory empty string at index 0 is a fact of its own (`seeded`): it is interned before
+// everything else either by a leading `addString(strings, "")` in preEncode itself or inside the
+// function that creates the table (`strings := newXxx(…)` whose body calls `addString(_, "")` as its
+// only addString call, outside any loop or condition).  It is not part of the returned list.
+func (c *csCtx) internOrder(f *ast.File, fd *ast.FuncDecl) (sites []csSite, seeded bool, err error) {
 	if csRecvObj(fd) == nil {
-		return nil, fmt.Errorf("preEncode has no named receiver")
+		return nil, false, fmt.Errorf("preEncode has no named receiver")
 	}
+	defer func() {
+		if err != nil || len(sites) == 0 {
+			return
+		}
+		if len(sites[0].ctx) == 0 && sites[0].arg == `""` {
+			sites, seeded = sites[1:], true
+			return
+		}
+		seeded = c.seededByConstructor(f, fd)
+	}()
+	sites, err = c.internSites(fd)
+	return sites, false, err
+}
+
+// seededByConstructor: the table handed to the addString calls of preEncode is created by a call
+// to a function of this file that interns "" (and nothing else) unconditionally.
+func (c *csCtx) seededByConstructor(f *ast.File, fd *ast.FuncDecl) bool {
+	var tableObj *ast.Object
+	ast.Inspect(fd.Body, func(n ast.Node) bool {
+		if call, ok := n.(*ast.CallExpr); ok && tableObj == nil {
+			if id, ok := call.Fun.(*ast.Ident); ok && id.Name == "addString" && len(call.Args) == 2 {
+				if t, ok := call.Args[0].(*ast.Ident); ok {
+					tableObj = t.Obj
+				}
+			}
+		}
+		return true
+	})
+	if tableObj == nil {
+		return false
+	}
+	as, ok := tableObj.Decl.(*ast.AssignStmt)
+	if !ok || len(as.Lhs) != 1 || len(as.Rhs) != 1 || len(fd.Body.List) == 0 || fd.Body.List[0] != ast.Stmt(as) {
+		return false
+	}
+	call, ok := as.Rhs[0].(*ast.CallExpr)
+	if !ok {
+		return false
+	}
+	ctor, ok := call.Fun.(*ast.Ident)
+	if !ok {
+		return false
+	}
+	cd := csFuncs(f)[ctor.Name]
+	if cd == nil || cd.Recv != nil {
+		return false
+	}
+	seeds, others := 0, 0
+	for _, st := range cd.Body.List {
+		es, isExpr := st.(*ast.ExprStmt)
+		top := false
+		if isExpr {
+			if cl, ok := es.X.(*ast.CallExpr); ok {
+				if id, ok := cl.Fun.(*ast.Ident); ok && id.Name == "addString" && len(cl.Args) == 2 && c.text(cl.Args[1]) == `""` {
+					seeds++
+					top = true
+				}
+			}
+		}
+		if !top && c.calls(st, "addString") {
+			others++
+		}
+	}
+	return seeds == 1 && others == 0
+}
+
+func (c *csCtx) internSites(fd *ast.FuncDecl) ([]csSite, error) {
 	csNormalize(map[*ast.Object]string{csRecvObj(fd): "p"}, fd.Body)
 	sc := c.scan(fd.Body)
 	header := func(n ast.Node) string {
@@ -1494,7 +1566,7 @@ func genCodecSchema(e *Env) (string, error) {
 	if ef["Profile.preEncode"] == nil || ef["Profile.postDecode"] == nil {
 		return "", fmt.Errorf("profile/encode.go: (*Profile).preEncode / postDecode not found")
 	}
-	sites, err := c.internOrder(ef["Profile.preEncode"])
+	sites, seeded, err := c.internOrder(enc, ef["Profile.preEncode"])
 	if err != nil {
 		return "", fmt.Errorf("profile/encode.go: preEncode: %v", err)
 	}
@@ -1565,6 +1637,7 @@ func genCodecSchema(e *Env) (string, error) {
 		pr.packedU, pr.packedI, pr.varintLimit, pr.fieldShift, pr.typeMask, csNatList(pr.wireTypes), pr.defaultRejects, strings.Join(fs, ", "))
 	b.WriteString("/-- one `addString(strings, arg)` call of preEncode: symbolic path of the argument under the\n    symbolic paths of the enclosing loops / conditions (outermost first) -/\n")
 	b.WriteString("structure InternSite where\n  ctx : List String\n  arg : String\n  deriving DecidableEq, Repr\n\n")
+	fmt.Fprintf(&b, "/-- the empty string is interned before everything else (a leading `addString(strings, \"\")` in\n    preEncode or in the function creating the table); it is not listed in `internOrder` -/\ndef emptyStringInternedFirst : Bool := %v\n\n", seeded)
 	b.WriteString("def internOrder : List InternSite := [\n")
 	for i, s := range sites {
 		fmt.Fprintf(&b, "  { ctx := %s,\n    arg := %s }", csStrList(s.ctx), leanStr(s.arg))
